@@ -134,12 +134,43 @@ func c03TeeBranch(c *Ctx, r *Report, rule string) {
 		r.bad(rule, fnName, "exists", "-", "function not found")
 		return
 	}
-	// the dynamic types wrapped by cx.Wrap(...) in Handle and its closures
-	wrapped := func(v ssa.Value) []types.Type {
+	// the dynamic types wrapped by cx.Wrap(...) in Handle, its closures and helpers of the package that build the
+	// connections for it (a helper's result is followed into its return statements)
+	var wrappedD func(v ssa.Value, depth int) []types.Type
+	wrappedD = func(v ssa.Value, depth int) []types.Type {
 		var out []types.Type
+		if depth > 3 {
+			return nil
+		}
+		idx := 0
+		var viaCall *ssa.Call
+		switch x := v.(type) {
+		case *ssa.Extract:
+			if cl, ok := x.Tuple.(*ssa.Call); ok {
+				viaCall, idx = cl, x.Index
+			}
+		case *ssa.Call:
+			viaCall = x
+		}
+		if viaCall != nil && calleeID(viaCall) != "layer4.(*Connection).Wrap" {
+			if callee := viaCall.Call.StaticCallee(); callee != nil && callee.Pkg == fn.Pkg && len(callee.Blocks) > 0 {
+				for _, ret := range returnsOf(callee) {
+					if idx < len(ret.Results) {
+						out = append(out, wrappedD(ret.Results[idx], depth+1)...)
+					}
+				}
+				return out
+			}
+		}
 		for _, o := range origins(v, sliceOpts{}) {
 			call, ok := o.V.(*ssa.Call)
-			if !ok || calleeID(call) != "layer4.(*Connection).Wrap" || len(call.Call.Args) < 2 {
+			if !ok {
+				continue
+			}
+			if calleeID(call) != "layer4.(*Connection).Wrap" || len(call.Call.Args) < 2 {
+				if call != viaCall && o.V != v {
+					out = append(out, wrappedD(call, depth+1)...)
+				}
 				continue
 			}
 			if mi, ok := call.Call.Args[1].(*ssa.MakeInterface); ok {
@@ -150,6 +181,7 @@ func c03TeeBranch(c *Ctx, r *Report, rule string) {
 		}
 		return out
 	}
+	wrapped := func(v ssa.Value) []types.Type { return wrappedD(v, 0) }
 	offers := func(t types.Type) []string {
 		var has []string
 		for _, tt := range []types.Type{t, types.NewPointer(t)} {
